@@ -11,6 +11,14 @@ RUNTIME_FAIL = ["drop", "1 drop drop", "(1, 2) swap", "1 (dup, drop drop)", "[1,
                 "(1, 2, 3) (?1 drop drop ||)", "\"%( drop %)\"", "1 [drop drop]", "1 (drop drop)*", "let A := drop;", "over"]
 
 
+# a failure (stack underflow throws) behind operators that hold state, in every sub-expression context: the state
+# of the abandoned sub-chain has to be destroyed on the way out of the exception as well
+FAIL_CORES = ["(1, 2) drop drop", "[3, 4] elem drop drop", "\"%( 1, 2 %)\" drop drop", "{drop drop} apply", "[1] elem* drop drop",
+              "(1, 2) (3, 4) drop drop drop", "let A := (1, 2); A drop drop"]
+FAIL_CONTEXTS = ["?(%s)", "!(%s)", "(%s == 7)", "(7 != %s)", "[%s]", "let X := %s;", "\"<%%( %s %%)>\"", "(%s)*", "(%s)+", "(%s || 9)",
+                 "if ?(%s) then 1 else 2", "if 1 then (%s) else 2", "{%s} apply", "(%s, 5)", "?(?(%s))", "[?(%s)]", "1 (|A| %s)"]
+
+
 def san_env():
     e = dict(os.environ)
     e["ASAN_OPTIONS"] = "detect_leaks=1:abort_on_error=0:exitcode=77:detect_stack_use_after_return=1"
@@ -54,7 +62,7 @@ def run(tier):
         cmds.append("\t".join(["run", str(len(cmds)), "max=300,t=30", zw.hexq(p)])); meta.append(("prog", p))
     for p in REJECTED:
         cmds.append("\t".join(["run", str(len(cmds)), "max=300,t=30", zw.hexq(p)])); meta.append(("rejected", p))
-    for p in RUNTIME_FAIL:
+    for p in RUNTIME_FAIL + [c % f for f in FAIL_CORES for c in FAIL_CONTEXTS]:
         cmds.append("\t".join(["run", str(len(cmds)), "max=300,t=30", zw.hexq(p)])); meta.append(("runtime", p))
     for p, f in dwq:
         cmds.append("\t".join(["run", str(len(cmds)), "max=300,t=60", zw.hexq(p), os.path.join(tests, f)])); meta.append(("dwarf", p))
